@@ -1168,7 +1168,7 @@ class Normaliser(object):
 
     def run(self):
         if self.inline_only:
-            self._defs_to_lambdas = self._ifs_to_conditional_expressions = self._outline = self._merge_conditional_calls = self._split_parallel_assignments = self._for_else_to_early_exit = self._scalarise_private_namedtuples = self._forward_pure_loads = self._spread_and_getattr = self._alias_of_renamed_def = lambda: None
+            self._defs_to_lambdas = self._ifs_to_conditional_expressions = self._outline = self._merge_conditional_calls = self._split_parallel_assignments = self._for_else_to_early_exit = self._scalarise_private_namedtuples = self._forward_pure_loads = self._spread_and_getattr = self._alias_of_renamed_def = self._apply_lambda_locals = lambda: None
         self._defs_to_lambdas()
         if self.helpers and not self.inline_only:
             self._collect_refresh()       # helper bodies were captured before nested defs became lambdas
@@ -1197,6 +1197,7 @@ class Normaliser(object):
         self._scalarise_private_namedtuples()
         self._propagate_temporaries()
         self._alias_of_renamed_def()
+        self._apply_lambda_locals()
         self._spread_and_getattr()
         self._forward_pure_loads()
         self._split_parallel_assignments()
@@ -1482,14 +1483,26 @@ class Normaliser(object):
                             nm = s_.targets[0].id
                             if counts.get(nm) == [1, 1] and not (isinstance(s_.value, ast.Name) and counts.get(s_.value.id, [0, 0])[1] != 1):
                                 j = i + 1
-                                while j < len(stmts) and plain_load_assign(stmts[j]) and not any(isinstance(x, ast.Name) and x.id == nm for x in ast.walk(stmts[j])):
+                                roots = {x.id for x in ast.walk(s_.value) if isinstance(x, ast.Name)}
+
+                                def harmless(st__):
+                                    # a plain load, or the construction of a fresh local from expressions that do not mention what the forwarded
+                                    # chain starts from
+                                    if plain_load_assign(st__):
+                                        return True
+                                    return isinstance(st__, ast.Assign) and len(st__.targets) == 1 and isinstance(st__.targets[0], ast.Name) and \
+                                        not any(isinstance(x, ast.Name) and x.id in roots for x in ast.walk(st__.value)) and \
+                                        not any(isinstance(x, (ast.Yield, ast.YieldFrom, ast.Await, ast.NamedExpr, ast.Lambda)) for x in ast.walk(st__.value))
+                                while j < len(stmts) and harmless(stmts[j]) and not any(isinstance(x, ast.Name) and x.id == nm for x in ast.walk(stmts[j])):
                                     j += 1
                                 if j < len(stmts):
                                     use = [x for x in ast.walk(stmts[j]) if isinstance(x, ast.Name) and x.id == nm and isinstance(x.ctx, ast.Load)]
                                     in_nested = any(isinstance(d, (ast.FunctionDef, ast.Lambda, ast.ListComp, ast.GeneratorExp, ast.DictComp, ast.SetComp)) and
                                                     any(x is use[0] for x in ast.walk(d)) for d in ast.walk(stmts[j])) if use else True
                                     callee = bool(use) and any(isinstance(c_, ast.Call) and c_.func is use[0] for c_ in ast.walk(stmts[j]))
-                                    if len(use) == 1 and not in_nested and ('__' in nm or callee) and not isinstance(stmts[j], (ast.For, ast.While, ast.With, ast.Try, ast.If)):
+                                    once = not isinstance(stmts[j], (ast.For, ast.While, ast.With, ast.Try, ast.If)) or \
+                                        (isinstance(stmts[j], ast.For) and bool(use) and any(x is use[0] for x in ast.walk(stmts[j].iter)))
+                                    if len(use) == 1 and not in_nested and ('__' in nm or callee) and once:
                                         val = s_.value
 
                                         class R(ast.NodeTransformer):
@@ -1586,6 +1599,63 @@ class Normaliser(object):
                             d.name = new
                             b.remove(al[0])
                             self.inlined.append((new, fn.name, 'def-alias'))
+
+    def _apply_lambda_locals(self):
+        """a local bound once to `lambda p..: e` (plain parameters) whose every use is a call with names / constants for them: each call is
+        e with the arguments put in (a lambda reads its free variables when called, which is where the expression now stands)"""
+        for t in self.trees.values():
+            for fn in [n for n in ast.walk(t) if isinstance(n, ast.FunctionDef)]:
+                for b in [n for n in ast.walk(fn) if isinstance(n, ast.Assign) and len(n.targets) == 1 and isinstance(n.targets[0], ast.Name) and isinstance(n.value, ast.Lambda)]:
+                    nm = b.targets[0].id
+                    lam = b.value
+                    a_ = lam.args
+                    if a_.vararg or a_.kwarg or a_.kwonlyargs or a_.posonlyargs or a_.defaults:
+                        continue
+                    names = [x for x in ast.walk(fn) if isinstance(x, ast.Name) and x.id == nm]
+                    calls = [c for c in ast.walk(fn) if isinstance(c, ast.Call) and isinstance(c.func, ast.Name) and c.func.id == nm]
+                    prm = [x.arg for x in a_.args]
+                    if len(names) != 1 + len(calls) or not calls or any(
+                            c.keywords or len(c.args) != len(prm) or not all(isinstance(x, (ast.Name, ast.Constant)) for x in c.args) for c in calls):
+                        continue
+                    if any(isinstance(x, (ast.NamedExpr, ast.Yield, ast.YieldFrom, ast.Await)) for x in ast.walk(lam.body)):
+                        continue
+                    # free variables of the lambda must not be rebound between the definition and the calls: require single binding in fn
+                    free = {x.id for x in ast.walk(lam.body) if isinstance(x, ast.Name)} - set(prm)
+                    stores = {}
+                    for x in ast.walk(fn):
+                        if isinstance(x, ast.Name) and isinstance(x.ctx, ast.Store):
+                            stores[x.id] = stores.get(x.id, 0) + 1
+                    if any(stores.get(f, 0) > 1 for f in free):
+                        continue
+
+                    class R(ast.NodeTransformer):
+                        def visit_Call(self_, c):
+                            self_.generic_visit(c)
+                            if any(c is k for k in calls):
+                                bind = dict(zip(prm, c.args))
+
+                                class S(ast.NodeTransformer):
+                                    def visit_Name(s__, n):
+                                        return copy.deepcopy(bind[n.id]) if isinstance(n.ctx, ast.Load) and n.id in bind else n
+                                return ast.copy_location(S().visit(copy.deepcopy(lam.body)), c)
+                            return c
+                    R().visit(fn)
+
+                    def drop(stmts):
+                        out = []
+                        for s_ in stmts:
+                            if s_ is b:
+                                continue
+                            for fld in ('body', 'orelse', 'finalbody'):
+                                bb = getattr(s_, fld, None)
+                                if isinstance(bb, list) and bb and isinstance(bb[0], ast.stmt):
+                                    setattr(s_, fld, drop(bb) or [ast.copy_location(ast.Pass(), s_)])
+                            for h in getattr(s_, 'handlers', []) or []:
+                                h.body = drop(h.body) or [ast.copy_location(ast.Pass(), h)]
+                            out.append(s_)
+                        return out
+                    fn.body = drop(fn.body)
+                    self.inlined.append((nm, fn.name, 'lambda-applied'))
 
     def _merge_conditional_calls(self):
         """`f(args) if c else g(args)` (same argument expressions) -> `(f if c else g)(args)`: test, callee, arguments are evaluated in
